@@ -1247,6 +1247,12 @@ pub fn run(cfg: &Cfg) {
     run_chunks(&mut out, cfg);
     run_send_arrays(&mut out, cfg);
     run_send_messages(&mut out, cfg);
+    // send-side nesting limit of the Param API: towers of variants / v:a{sv} / (v) / av from inside the limit to beyond
+    // it - refused beyond 64 levels with nothing left behind, and whatever is accepted validates and reads back
+    {
+        let mut r2 = Prng::new(cfg.seed ^ 0x18d);
+        vcore::eng_wire::run_illformed_params(&mut out, &mut r2);
+    }
     // last: a decoder that recursed per level would kill the process here
     run_dec_deep(&mut out, cfg);
     out.extra("recv_worst_single_alloc_per_mille_of_received_plus_64KiB", RECV_WORST.load(Relaxed).to_string());
